@@ -141,7 +141,7 @@ pub fn equality_graphs<S: ShortGroupSignatureScheme>(em: &mut Emitter, base: &mu
         }
         let rng = &mut base.sub(2_000_000 + (2 * k + off) as u64);
         // fixed bridging patterns over four credentials first, then random graphs over 2..4 credentials
-        let fixed: Vec<Vec<(usize, usize)>> = vec![vec![(0, 1), (2, 3), (1, 2)], vec![(0, 1), (2, 3), (2, 1)], vec![(0, 1), (2, 3), (0, 3)], vec![(2, 3), (0, 1), (1, 2), (0, 3)], vec![(0, 1), (1, 2), (2, 3)], vec![(0, 3), (1, 2), (3, 1)]];
+        let fixed: Vec<Vec<(usize, usize)>> = vec![vec![(0, 1), (2, 3), (1, 2)], vec![(0, 1), (2, 3), (2, 1)], vec![(0, 1), (2, 3), (0, 3)], vec![(2, 3), (0, 1), (1, 2), (0, 3)], vec![(0, 1), (1, 2), (2, 3)], vec![(0, 3), (1, 2), (3, 1)], vec![(0, 1), (0, 1), (1, 2)], vec![(0, 1), (0, 1), (1, 2), (2, 3)], vec![(0, 1), (2, 3), (1, 2), (0, 3)]];
         let n_creds = if k < fixed.len() { 4 } else { 2 + rng.below(3) as usize };
         let mix = Mix { n_creds, n_claims: 6, disclosed: (0..n_creds).map(|_| vec![]).collect(), age: 30, ..Default::default() };
         let mut scn = Scn::<S>::build(rng, &mix);
@@ -173,8 +173,11 @@ pub fn equality_graphs<S: ShortGroupSignatureScheme>(em: &mut Emitter, base: &mu
         if k < fixed.len() {
             for (e, (a, b)) in fixed[k].iter().enumerate() {
                 let mut m = IndexMap::new();
-                m.insert(scn.sig_ids[*a].clone(), 1usize);
-                m.insert(scn.sig_ids[*b].clone(), 1usize);
+                // odd patterns put the second statement on the other equal claim (two groups over the same pair, then a
+                // statement that chains to the *earlier* group)
+                let ci = if k % 2 == 1 && e == 1 { 5usize } else { 1usize };
+                m.insert(scn.sig_ids[*a].clone(), ci);
+                m.insert(scn.sig_ids[*b].clone(), ci);
                 desc.push(format!("{:?}", m));
                 stmts.push(EqualityStatement { id: format!("eq{}", e), ref_id_claim_index: m }.into());
             }
@@ -397,6 +400,16 @@ pub fn call_order_flows<S: ShortGroupSignatureScheme + 'static>(em: &mut Emitter
                     _ => false,
                 };
                 out.push((shape.clone(), ok));
+                // the same statements listed range-first / signature-last
+                let sts: Vec<Statements<S>> = scn.schema.statements.values().cloned().collect();
+                for (oname, st) in [("reversed", sts.iter().rev().cloned().collect::<Vec<_>>()), ("range-commitment-signature", { let mut v = sts.clone(); v.rotate_left(1); v.swap(0, 1); v })] {
+                    let sch = PresentationSchema::new_with_id(&st, &scn.schema.id);
+                    let ok2 = match call(|| Presentation::create(&scn.credentials, &sch, &scn.nonce)) {
+                        Out::Ok(p) => call(|| p.verify(&sch, &scn.nonce)).is_ok(),
+                        _ => false,
+                    };
+                    out.push((format!("{} ({} order)", shape, oname), ok2));
+                }
             }
             let _ = suite_s;
             out
